@@ -127,6 +127,16 @@ func nrExpected(w *workload, c nrCfg) (out []rec, perSeries []int) {
 						add(s.Name+".histogram", tags, "counter", nil, "", float64(cnt), "timer.histogram")
 						perSeries[i] += 2
 					}
+					forbid := func(name, statsdType, field string) {
+						add(name, s.Tags, statsdType, nil, field, 0, gsdSummary)
+						out[len(out)-1].Forbidden = true
+					}
+					for _, suffix := range []string{"per_second", "mean", "median", "std_dev", "sum_squares"} {
+						forbid(s.Name+"."+suffix, "gauge", "")
+					}
+					for _, field := range []string{"count", "sum", "min", "max"} {
+						forbid(s.Name+".summary", "timer", field)
+					}
 					continue
 				}
 				g := func(disabled bool, suffix string, v float64) {
@@ -180,6 +190,10 @@ func nrExpected(w *workload, c nrCfg) (out []rec, perSeries []int) {
 					add(s.Name+".histogram", tags, f.value, float64(cnt), "timer.histogram")
 					add(s.Name+".histogram", tags, f.perSecond, 0, "timer.histogram.rate")
 					perSeries[i]++
+				}
+				for _, field := range []string{f.value, f.min, f.max, f.count, f.sum, f.perSecond, f.mean, f.median, f.stddev, f.sumsq} {
+					add(s.Name, s.Tags, field, 0, gsdSummary)
+					out[len(out)-1].Forbidden = true
 				}
 				continue
 			}
